@@ -404,12 +404,15 @@ BUFR_Tables *bufr_extract_tables( BUFR_Dataset *dts )
             case 2  :
                str = bufr_value_get_string( bcv->value, &len );
                if (str) 
-                  strcpy( desc, str );
+                  {
+                  strncpy( desc, str, sizeof(desc)-1 );
+                  desc[sizeof(desc)-1] = '\0';
+                  }
                break;
             case 3  :
                str = bufr_value_get_string( bcv->value, &len );
                if (str) 
-                  strcat( desc, str );
+                  strncat( desc, str, sizeof(desc)-strlen(desc)-1 );
                bufr_set_tables_category( tbls, cat, desc );
                break;
             case 10 :
@@ -431,11 +434,12 @@ BUFR_Tables *bufr_extract_tables( BUFR_Dataset *dts )
                break;
             case 13 :
                str = bufr_value_get_string( bcv->value, &len );
-               strcpy( desc, str );
+               strncpy( desc, str, sizeof(desc)-1 );
+               desc[sizeof(desc)-1] = '\0';
                break;
             case 14 :
                str = bufr_value_get_string( bcv->value, &len );
-               strcat( desc, str );
+               strncat( desc, str, sizeof(desc)-strlen(desc)-1 );
                if (eb.description)
                   {
                   free( eb.description );
